@@ -25,6 +25,19 @@ func init() {
 				panic(p)
 			}
 		}()
-		synctest.Test(theT, func(*testing.T) { body() })
+		// a sub-test per bubble: in -race builds testing ends a test in which the detector reported a race with
+		// FailNow (Goexit); that must only end the bubble, not the worker loop
+		theT.Run("bubble", func(st *testing.T) {
+			defer func() {
+				if p := recover(); p != nil {
+					s := fmt.Sprint(p)
+					if strings.Contains(s, "blocked goroutines remain") || strings.Contains(s, "deadlock: main bubble goroutine has exited") {
+						return
+					}
+					panic(p)
+				}
+			}()
+			synctest.Test(st, func(*testing.T) { body() })
+		})
 	}
 }
